@@ -426,6 +426,20 @@ func genProtoStream(r *Rng, cfg *SimCfg, ci int, prop string) []byte {
 			b.Write(cmdSet("set", fmt.Sprintf("c%dwrap%d", ci, r.Intn(2)), uint64(r.Pick(0, 0x10)), rev, v, r.Bool(1, 8)))
 			return
 		}
+		if r.Bool(1, 14) {
+			// meta queries of a key that was just written / just deleted (a tombstone is a record too)
+			if r.Bool(1, 2) {
+				b.Write(cmdSet("set", k, 0, 0, genProtoValue(r, max), false))
+			}
+			if r.Bool(2, 3) {
+				b.WriteString("delete " + k + "\r\n")
+			}
+			b.WriteString("get ?" + k + "\r\n")
+			if r.Bool(1, 2) {
+				b.WriteString("get ??" + k + "\r\n")
+			}
+			return
+		}
 		switch r.Weighted([]int{30, 25, 8, 8, 5, 3, 3, 2, 2, 4, 3, 2}) {
 		case 0:
 			v := genProtoValue(r, max)
